@@ -262,3 +262,23 @@ def roots_with_closure(fi: FuncInfo, e: ast.AST) -> set:
         frontier = {r for r in out if r.isidentifier()} - seen
         cur = getattr(cur, "parent", None)
     return out
+
+
+class _Inlined:
+    """A FuncInfo look-alike whose `node` has private helpers of the same class/module inlined (statement calls and tail
+    calls), so that an extracted helper does not hide the statements a rule is looking for."""
+
+    def __init__(self, fi, node):
+        self._fi = fi
+        self.node = node
+
+    def __getattr__(self, name):
+        return getattr(self._fi, name)
+
+    def loc(self, node=None):
+        return self._fi.loc(node) if node is None or hasattr(node, "lineno") else self._fi.loc()
+
+
+def inlined(ix, fi, skip=()):
+    from . import shape
+    return _Inlined(fi, shape.inline_helpers(ix, fi, skip=skip))
